@@ -2,7 +2,9 @@
     No proofs here.  The file holds a finite map  reference number -> Vgroup {name, class, ordered member list
     of (tag, ref)}  and a finite map  reference number -> Vdata {name, class}.  A Vgroup (Vdata) is `lone' when
     no Vgroup of the file lists (DFTAG_VG, its ref)  ((DFTAG_VH, its ref))  as a member.  All handles on a Vgroup
-    see the same, current, state; closing and reopening the file changes nothing.
+    see the same, current, state -- including the access mode: a Vgroup is writable while it is attached iff one of
+    the attaches since it was last unattached asked for "w" (a later "r" attach never takes the permission away);
+    every edit needs a writable Vgroup, through whichever handle.  Closing and reopening the file changes nothing.
 
     Reference numbers of new objects are chosen by the library's allocator (property C12); here they are an
     *input* of the creating operation and only checked for freshness.
@@ -30,7 +32,8 @@ Fixpoint is_prefix (p s : bytes) : bool :=
   end.
 Definition zlen {A} (l : list A) : Z := Z.of_nat (length l).
 
-Record vg := mkvg { g_name : bytes; g_class : bytes; g_members : list pair }.
+Record vg := mkvg { g_name : bytes; g_class : bytes; g_members : list pair;
+                   g_w : bool (* writable; false while not attached *) }.
 Record vs := mkvs { s_name : bytes; s_class : bytes }.
 
 (* ---- tables keyed by reference number, kept in ascending key order -------------------------------- *)
@@ -56,7 +59,7 @@ Fixpoint tnext {A} (k : Z) (t : list (Z * A)) : option Z :=
 Record state := mkst {
   vgs : list (Z * vg);                  (* the file's Vgroups *)
   vss : list (Z * vs);                  (* the file's Vdatas *)
-  hg  : list (Z * (Z * bool));          (* open Vgroup handles: slot -> (ref, attached for writing) *)
+  hg  : list (Z * Z);                   (* open Vgroup handles: slot -> ref *)
   hs  : list (Z * Z)                    (* open Vdata handles: slot -> ref *)
 }.
 Definition init : state := mkst [] [] [] [].
@@ -88,9 +91,8 @@ Inductive res := RFail | RUnspec | RNoSpec | ROk (vals : list Z) (bs : option by
 
 (* ---- the property's domain ------------------------------------------------------------------------ *)
 Definition u16 (z : Z) : bool := (0 <=? z) && (z <=? 65535).
-Definition name_ok (s : bytes) : bool :=
-  forallb (fun b => (1 <=? b) && (b <=? 255)) s && (zlen s <=? 65535).
-(** member counts stay below the 16-bit counter's limit (the wrap itself is property C20) *)
+Definition name_ok (s : bytes) : bool := forallb (fun b => (1 <=? b) && (b <=? 255)) s.
+(** the 16-bit member counter: the library refuses the 65536th member *)
 Definition room (g : vg) (k : Z) : bool := zlen (g_members g) + k <=? 65535.
 
 (* ---- list operations on a member list ------------------------------------------------------------- *)
@@ -121,23 +123,26 @@ Definition ok0 (s : state) : state * res := (s, ROk [] None).
 Definition okv (s : state) (v : list Z) : state * res := (s, ROk v None).
 
 (** run [f] on the Vgroup behind handle [h] *)
-Definition with_h (s : state) (h : Z) (f : Z -> bool -> vg -> state * res) : state * res :=
+Definition with_h (s : state) (h : Z) (f : Z -> vg -> state * res) : state * res :=
   match tget h (hg s) with
   | None => (s, RUnspec)
-  | Some (r, w) => match tget r (vgs s) with None => (s, RUnspec) | Some g => f r w g end
+  | Some r => match tget r (vgs s) with None => (s, RUnspec) | Some g => f r g end
   end.
-(** an edit: needs a handle attached for writing *)
+(** an edit: the Vgroup must be writable *)
 Definition edit_h (s : state) (h : Z) (f : Z -> vg -> state * res) : state * res :=
-  with_h s h (fun r w g => if w then f r g else (s, RUnspec)).
+  with_h s h (fun r g => if g_w g then f r g else (s, RFail)).
 Definition put_vg (s : state) (r : Z) (g : vg) : state := mkst (tset r g (vgs s)) (vss s) (hg s) (hs s).
-Definition attached (r : Z) (s : state) : bool := existsb (fun e => fst (snd e) =? r) (hg s).
-Definition vs_attached (r : Z) (s : state) : bool := existsb (fun e => snd e =? r) (hs s).
+Definition set_w (g : vg) (w : bool) : vg := mkvg (g_name g) (g_class g) (g_members g) w.
+Definition set_members (g : vg) (l : list pair) : vg := mkvg (g_name g) (g_class g) l (g_w g).
+Definition attached_in (r : Z) (t : list (Z * Z)) : bool := existsb (fun e => snd e =? r) t.
+Definition attached (r : Z) (s : state) : bool := attached_in r (hg s).
+Definition vs_attached (r : Z) (s : state) : bool := attached_in r (hs s).
 
 Definition insert_pair (s : state) (h : Z) (p : pair) : state * res :=
   edit_h s h (fun r g =>
-    if negb (room g 1) then (s, RUnspec)
-    else if has_member p (g_members g) then (s, RFail)
-    else (put_vg s r (mkvg (g_name g) (g_class g) (g_members g ++ [p])), ROk [zlen (g_members g)] None)).
+    if has_member p (g_members g) then (s, RFail)
+    else if negb (room g 1) then (s, RFail)
+    else (put_vg s r (set_members g (g_members g ++ [p])), ROk [zlen (g_members g)] None)).
 
 Definition getid {A} (t : list (Z * A)) (r : Z) (s : state) : state * res :=
   if r =? -1 then match t with [] => (s, RFail) | (k, _) :: _ => okv s [k] end
@@ -152,36 +157,44 @@ Definition step (s : state) (o : op) : state * res :=
       match tget h (hg s) with Some _ => (s, RUnspec) | None =>
         if negb ((1 <=? r) && (r <=? 65535)) then (s, RFail)
         else match tget r (vgs s) with Some _ => (s, RFail) | None =>
-          (mkst (tins r (mkvg [] [] []) (vgs s)) (vss s) (tins h (r, true) (hg s)) (hs s), ROk [r] None) end end
+          (mkst (tins r (mkvg [] [] [] true) (vgs s)) (vss s) (tins h r (hg s)) (hs s), ROk [r] None) end end
   | OVgAttach h r w =>
       match tget h (hg s) with Some _ => (s, RUnspec) | None =>
-        match tget r (vgs s) with None => (s, RFail) | Some _ =>
-          (mkst (vgs s) (vss s) (tins h (r, w) (hg s)) (hs s), ROk [] None) end end
+        match tget r (vgs s) with None => (s, RFail) | Some g =>
+          let w' := if attached r s then g_w g || w else w in
+          (mkst (tset r (set_w g w') (vgs s)) (vss s) (tins h r (hg s)) (hs s), ROk [] None) end end
   | OVgDetach h =>      (* an empty slot: nothing is called, the drivers report fail *)
-      match tget h (hg s) with None => (s, RFail) | Some _ =>
-        (mkst (vgs s) (vss s) (tdel h (hg s)) (hs s), ROk [] None) end
+      match tget h (hg s) with None => (s, RFail) | Some r =>
+        match tget r (vgs s) with None => (s, RUnspec) | Some g =>
+          let hg' := tdel h (hg s) in
+          (mkst (if attached_in r hg' then vgs s else tset r (set_w g false) (vgs s)) (vss s) hg' (hs s),
+           ROk [] None) end end
   | OSetName h n => edit_h s h (fun r g =>
-      if name_ok n then ok0 (put_vg s r (mkvg n (g_class g) (g_members g))) else (s, RUnspec))
+      if negb (name_ok n) then (s, RUnspec)
+      else if 65535 <? zlen n then (s, RFail)
+      else ok0 (put_vg s r (mkvg n (g_class g) (g_members g) (g_w g))))
   | OSetClass h n => edit_h s h (fun r g =>
-      if name_ok n then ok0 (put_vg s r (mkvg (g_name g) n (g_members g))) else (s, RUnspec))
+      if negb (name_ok n) then (s, RUnspec)
+      else if 65535 <? zlen n then (s, RFail)
+      else ok0 (put_vg s r (mkvg (g_name g) n (g_members g) (g_w g))))
   | OAddTagRef h t r => edit_h s h (fun vr g =>
-      if u16 t && u16 r && room g 1
-      then (put_vg s vr (mkvg (g_name g) (g_class g) (g_members g ++ [(t, r)])), ROk [zlen (g_members g) + 1] None)
-      else (s, RUnspec))
+      if negb (u16 t && u16 r) then (s, RUnspec)
+      else if negb (room g 1) then (s, RFail)
+      else (put_vg s vr (set_members g (g_members g ++ [(t, r)])), ROk [zlen (g_members g) + 1] None))
   | OAddMany h t r c st => edit_h s h (fun vr g =>
       if u16 t && u16 r && u16 (r + (c - 1) * st) && (1 <=? c) && room g c
-      then (put_vg s vr (mkvg (g_name g) (g_class g) (add_many (g_members g) t r st (Z.to_nat c))),
+      then (put_vg s vr (set_members g (add_many (g_members g) t r st (Z.to_nat c))),
             ROk [zlen (g_members g) + c] None)
       else (s, RUnspec))
   | OInsertVg h h2 =>
-      match tget h2 (hg s) with None => (s, RUnspec) | Some (r2, _) => insert_pair s h (DFTAG_VG, r2) end
+      match tget h2 (hg s) with None => (s, RUnspec) | Some r2 => insert_pair s h (DFTAG_VG, r2) end
   | OInsertVs h h2 =>
       match tget h2 (hs s) with None => (s, RUnspec) | Some r2 => insert_pair s h (DFTAG_VH, r2) end
   | ODelTagRef h t r => edit_h s h (fun vr g =>
       if u16 t && u16 r then
         match remove_first (t, r) (g_members g) with
         | None => (s, RFail)
-        | Some l => ok0 (put_vg s vr (mkvg (g_name g) (g_class g) l))
+        | Some l => ok0 (put_vg s vr (set_members g l))
         end
       else (s, RUnspec))
   | OVDelete r =>
@@ -205,25 +218,25 @@ Definition step (s : state) (o : op) : state * res :=
       match tget h (hs s) with None => (s, RFail) | Some _ =>
         (mkst (vgs s) (vss s) (hg s) (tdel h (hs s)), ROk [] None) end
   (* ---- observers ---- *)
-  | ONTagRefs h => with_h s h (fun _ _ g => okv s [zlen (g_members g)])
-  | OGetTagRefs h n => with_h s h (fun _ _ g =>
+  | ONTagRefs h => with_h s h (fun _ g => okv s [zlen (g_members g)])
+  | OGetTagRefs h n => with_h s h (fun _ g =>
       if n <? 0 then (s, RUnspec)
       else let l := firstn (Z.to_nat n) (g_members g) in okv s (zlen l :: flat l))
-  | OGetTagRef h i => with_h s h (fun _ _ g =>
+  | OGetTagRef h i => with_h s h (fun _ g =>
       if (0 <=? i) && (i <? zlen (g_members g))
       then match nth_error (g_members g) (Z.to_nat i) with Some (t, r) => okv s [t; r] | None => (s, RFail) end
       else (s, RFail))
-  | OInqTagRef h t r => with_h s h (fun _ _ g =>
+  | OInqTagRef h t r => with_h s h (fun _ g =>
       if u16 t && u16 r then okv s [if has_member (t, r) (g_members g) then 1 else 0] else (s, RUnspec))
-  | ONRefs h t => with_h s h (fun _ _ g =>
+  | ONRefs h t => with_h s h (fun _ g =>
       if u16 t then okv s [zlen (filter (fun p => fst p =? t) (g_members g))] else (s, RUnspec))
-  | OGetName h => with_h s h (fun _ _ g => (s, ROk [] (Some (g_name g))))
-  | OGetClass h => with_h s h (fun _ _ g => (s, ROk [] (Some (g_class g))))
-  | OInquire h => with_h s h (fun _ _ g => (s, ROk [zlen (g_members g)] (Some (g_name g))))
-  | OQueryRef h => with_h s h (fun r _ _ => okv s [r])
-  | OIsVg h id => with_h s h (fun _ _ g =>
+  | OGetName h => with_h s h (fun _ g => (s, ROk [] (Some (g_name g))))
+  | OGetClass h => with_h s h (fun _ g => (s, ROk [] (Some (g_class g))))
+  | OInquire h => with_h s h (fun _ g => (s, ROk [zlen (g_members g)] (Some (g_name g))))
+  | OQueryRef h => with_h s h (fun r _ => okv s [r])
+  | OIsVg h id => with_h s h (fun _ g =>
       if u16 id then okv s [if has_member (DFTAG_VG, id) (g_members g) then 1 else 0] else (s, RUnspec))
-  | OIsVs h id => with_h s h (fun _ _ g =>
+  | OIsVs h id => with_h s h (fun _ g =>
       if u16 id then okv s [if has_member (DFTAG_VH, id) (g_members g) then 1 else 0] else (s, RUnspec))
   | OLone n => if n <? 0 then (s, RUnspec)
                else let l := lone_vgroups s in okv s (zlen l :: firstn (Z.to_nat n) l)
@@ -241,7 +254,7 @@ Definition step (s : state) (o : op) : state * res :=
       if (start <? 0) || (n <? 1) then (s, RUnspec)
       else let u := keys (filter (fun e => negb (internal_class (g_class (snd e)))) (vgs s)) in
            if zlen u <? start then (s, RFail) else let l := slice start n u in okv s (zlen l :: l)
-  | OGetVgroupsG h start n => with_h s h (fun _ _ g =>
+  | OGetVgroupsG h start n => with_h s h (fun _ g =>
       if (start <? 0) || (n <? 1) then (s, RUnspec)
       else let u := map snd (filter (fun p => (fst p =? DFTAG_VG) &&
                                       match tget (snd p) (vgs s) with
@@ -263,12 +276,14 @@ Inductive mop :=
 | MInq (t r : Z).           (* Vinqtagref *)
 Inductive mres := MNum (z : Z) | MFail | MPairs (l : list pair) | MBool (b : bool).
 
-(** [None]: outside the domain (arguments beyond 16 bits, or the 65535-member limit of property C20) *)
+(** [None]: outside the domain (arguments beyond 16 bits).  The 65536th member is refused. *)
 Definition l_apply (l : list pair) (o : mop) : option (list pair * mres) :=
   match o with
-  | MAdd t r => if u16 t && u16 r && (zlen l <? 65535) then Some (l ++ [(t, r)], MNum (zlen l + 1)) else None
-  | MInsert t r => if u16 t && u16 r && (zlen l <? 65535)
-                   then Some (if has_member (t, r) l then (l, MFail) else (l ++ [(t, r)], MNum (zlen l))) else None
+  | MAdd t r => if u16 t && u16 r
+                then Some (if zlen l <? 65535 then (l ++ [(t, r)], MNum (zlen l + 1)) else (l, MFail)) else None
+  | MInsert t r => if u16 t && u16 r
+                   then Some (if has_member (t, r) l then (l, MFail)
+                              else if zlen l <? 65535 then (l ++ [(t, r)], MNum (zlen l)) else (l, MFail)) else None
   | MDel t r => if u16 t && u16 r
                 then Some (match remove_first (t, r) l with Some l' => (l', MNum 0) | None => (l, MFail) end) else None
   | MCount => Some (l, MNum (zlen l))
